@@ -539,6 +539,7 @@ package vanguard
 //@   loop 1 decreases len(data), ite(w.writingEnvelope, 0, 1), ite(w.err == nil, 1, 0)
 
 //@ func (*transformingWriter).Close
+//@   ensures[C09] old(w.expectingBytes) == -1 && old(w.buffer) != nil && w.rw.contentLen >= 0 && old(blen(w.buffer)) != w.rw.contentLen ==> w.rw.endWritten
 //@   requires twRest(w)
 //@   step rwStep(w.rw)
 //@   ensures[C09] old(w.expectingBytes) >= 0 && old(w.buffer) != nil && !(old(w.writingEnvelope) && old(blen(w.buffer)) == 0) ==> w.rw.endWritten
